@@ -8,8 +8,9 @@ CONSTANTS
   MaxDups = 0
   MaxHeartbeats = 0
   MaxLog = 3
-  MaxNet = 9
+  MaxNet = 3
   MaxEnts = 1
+  LossySend = TRUE
   SimDepth = 0
   W_CommitAnyTerm = TRUE
   W_VoteIgnoreVoted = FALSE
